@@ -87,9 +87,11 @@ def alignment_columns(aln):
             str(aln.alignment_block_length), str(aln.mapping_quality)]
 
 
-def build_index(gaf_path, gfa_path, out):
+def build_index(gaf_path, gfa_path, out, via="api"):
     from gaftools.cli import index
 
+    if via != "api":
+        return core.cli(["index", gaf_path, gfa_path, "-o", out])
     return core.call(index.run, gaf_path, gfa_path, out)
 
 
@@ -113,18 +115,41 @@ def file_classes(case, table):
     return cl
 
 
-def run_view(d, gaf_path, case_gfa_path, out, nodes=(), regions=(), fmt=None, index=None, step_limit=None):
-    """view.run in-process; returns (call result, output lines or None)."""
+def run_view(d, gaf_path, case_gfa_path, out, nodes=(), regions=(), fmt=None, index=None, step_limit=None, via="api"):
+    """view in-process; returns (call result, output lines or None).
+    via: "api" = gaftools.cli.view.run(...); "cli" = `gaftools view ... -o out` through gaftools.__main__.main;
+    "cli_stdout" = the same without -o, standard output captured."""
     import sys
 
     from gaftools.cli import view
 
-    def go():
-        return view.run(gaf_path, gfa=case_gfa_path if fmt else None, output=out, index=index,
-                        nodes=list(nodes), regions=list(regions), format=fmt)
+    if via == "api":
+        def go():
+            return view.run(gaf_path, gfa=case_gfa_path if fmt else None, output=out, index=index,
+                            nodes=list(nodes), regions=list(regions), format=fmt)
+    else:
+        argv = ["view", gaf_path]
+        if fmt:
+            argv += ["-g", case_gfa_path, "--format", fmt]
+        if index:
+            argv += ["-i", index]
+        for n in nodes:
+            argv += ["-n", n]
+        for r in regions:
+            argv += ["-r", r]
+        if via == "cli":
+            argv += ["-o", out]
+
+        def go():
+            r = core.cli(argv, capture_stdout=(via == "cli_stdout"))
+            if r[0] == "ok" and via == "cli_stdout":
+                core.write_text(out, r[1])
+            if r[0] != "ok":
+                raise _CliResult(r)
+            return None
 
     if step_limit is None:
-        res = core.call(go)
+        res = _unwrap(core.call(go))
     else:
         count = [0]
 
@@ -146,7 +171,7 @@ def run_view(d, gaf_path, case_gfa_path, out, nodes=(), regions=(), fmt=None, in
         sys.settrace(tracer)
         try:
             try:
-                res = core.call(go)
+                res = _unwrap(core.call(go))
             except StepLimit:
                 res = ("steplimit", count[0])
         finally:
@@ -162,13 +187,31 @@ def run_view(d, gaf_path, case_gfa_path, out, nodes=(), regions=(), fmt=None, in
     return res, lines
 
 
+class _CliResult(Exception):
+    def __init__(self, res):
+        Exception.__init__(self, str(res))
+        self.res = res
+
+
+_LAST = {}
+
+
+def _unwrap(res):
+    """core.call turned a _CliResult into ("exc", text); recover the original CLI result tuple."""
+    if res[0] == "exc" and res[1].startswith("_CliResult: "):
+        import ast
+
+        return tuple(ast.literal_eval(res[1][len("_CliResult: "):].split(" at ")[0]))
+    return res
+
+
 def expected_plain(line):
     """What re-emitting a parsed record without conversion must print."""
     f = line.split("\t")
     return "\t".join(twelve(line) + f[12:])
 
 
-def big_file_case(seed, nrec, stable, pad=120, block=20000):
+def big_file_case(seed, nrec, stable, pad=120, block=20000, n_ref=12, contig="chr1", line_len=None, canonical=False):
     """A deterministic large GAF (many records, several BGZF blocks) over a small fixed bubble chain.
     Size thresholds (e.g. 'more than 1000 selected records') are invisible to small generated files."""
     import random
@@ -176,9 +219,9 @@ def big_file_case(seed, nrec, stable, pad=120, block=20000):
     rnd = random.Random(seed)
     g = {"nodes": {}, "links": []}
     pos = 0
-    for i in range(1, 13):
+    for i in range(1, n_ref + 1):
         ln = rnd.randint(3, 7)
-        g["nodes"]["s%d" % i] = {"seq": "".join(rnd.choice("ACGT") for _ in range(ln)), "ln": ln, "sn": "chr1", "so": pos, "sr": 0}
+        g["nodes"]["s%d" % i] = {"seq": "".join(rnd.choice("ACGT") for _ in range(ln)), "ln": ln, "sn": contig, "so": pos, "sr": 0}
         pos += ln
         if i > 1:
             g["links"].append(["s%d" % (i - 1), "+", "s%d" % i, "+"])
@@ -203,10 +246,23 @@ def big_file_case(seed, nrec, stable, pad=120, block=20000):
         total = sum(g["nodes"][x]["ln"] for _, x in steps)
         ps = rnd.randint(0, total - 1)
         pe = rnd.randint(ps + 1, total)
+        if canonical:  # the alignment touches its first and its last node
+            first, last = g["nodes"][steps[0][1]]["ln"], g["nodes"][steps[-1][1]]["ln"]
+            ps = rnd.randint(0, first - 1)
+            pe = rnd.randint(max(ps + 1, total - last + 1), total)
         rec = {"name": "q%d" % i, "qlen": pe - ps + 4, "qs": 2, "qe": 2 + pe - ps, "strand": "+", "steps": steps, "plen": total,
                "ps": ps, "pe": pe, "matches": pe - ps, "block": pe - ps, "mapq": 60, "cg": "%d=" % (pe - ps),
                "tags": ["NM:i:0", "zq:Z:" + "k" * rnd.randint(0, pad)], "cg_pos": 1}
-        lines.append(conv.stable_line(g["nodes"], rec) if stable else gen_gaf.record_line(rec))
+        line = conv.stable_line(g["nodes"], rec) if stable else gen_gaf.record_line(rec)
+        if line_len:
+            # every line (with its newline) is exactly line_len bytes: records end on every multiple of line_len,
+            # in particular on 64 KiB boundaries when line_len is a power of two
+            f = line.split("\t")
+            f[-1] = "zq:Z:"
+            base = "\t".join(f)
+            line = base + "k" * (line_len - 1 - len(base))
+            assert len(line) == line_len - 1, (len(line), line_len)
+        lines.append(line)
     size = sum(len(l) + 1 for l in lines)
     cuts = list(range(block, size, block))
     case = {"gfa": gen_graph.gfa_text(g, with_seq=False, order_seed=seed), "gaf": lines,
